@@ -45,6 +45,7 @@ PROBES = [
     "policy_last",
     "policy_rr",
     "single_worker_sequential_path",
+    "primed_session",
 ]
 REAL_VS_STUB = dict(
     real="all of yaw, numpy, scipy KDTree, pickle, PyYAML, kernel file system (tmpfs)",
@@ -68,6 +69,9 @@ def gen_cases(tier: str, verif_seed: int, runs: int | None = None) -> list[dict]
     for i in range(ncases):
         prng = Prng(mix(verif_seed, PROP, i))
         scene = scenes.gen_scene(prng, small=(tier == "quick"))
+        # same cache bytes in both executions: bitwise equality is a fair demand also for
+        # weights whose sums are not exact (summation order must then be fixed by the code)
+        scene["w_kind"] = prng.choice(["dyadic", "float", "float"])
         variants = []
         for j in range(nvar):
             pol = "prng"
@@ -83,6 +87,9 @@ def gen_cases(tier: str, verif_seed: int, runs: int | None = None) -> list[dict]
                     policy=pol,
                     sched_seed=prng.below(1 << 40),
                     progress=prng.chance(1, 4),
+                    # one session: an earlier sequential measurement with another binning on the
+                    # same caches, in the same (parent) process
+                    prime=prng.chance(1, 3),
                 )
             )
         cases.append(
@@ -203,6 +210,28 @@ def _run_ops(case: dict, paths: dict, max_workers, progress: bool, state: dict) 
         state["iter"] = sorted(res)
 
 
+def _prime(case: dict, paths: dict) -> None:
+    """Earlier use of the same caches in the same process: a sequential
+    autocorrelation with the inner bin edges moved (same number of bins)."""
+    import yaw
+
+    scene = dict(case["scene"])
+    edges = list(scene["edges"])
+    if len(edges) > 2:
+        edges = [edges[0]] + [0.5 * (a + b) for a, b in zip(edges[1:-1], edges[2:])] + [edges[-1]]
+    else:
+        edges = [edges[0], 0.5 * (edges[0] + edges[1]), edges[1]]
+    scene["edges"] = edges
+    try:
+        with scenes.sequential_mode():
+            config = scenes.scene_config(scene)
+            ref = yaw.Catalog(paths["ref"], max_workers=1)
+            rref = yaw.Catalog(paths["rref"], max_workers=1)
+            yaw.autocorrelate(config, ref, rref, max_workers=1)
+    except Exception:  # noqa: BLE001 - e.g. a patch without objects in the shifted bins
+        pass
+
+
 def _first_diff(ref: dict, got: dict) -> tuple[str, str] | None:
     for key in ref:
         if key not in got:
@@ -270,6 +299,13 @@ def run_case(case: dict) -> dict:
             mw = None if var.get("use_none") else var["workers"]
             if mw is None:
                 cores = var["workers"]
+            from sim import procstate
+
+            procstate.uninstall()
+            procstate.install()  # process-local memo caches with fork semantics for this session
+            if var.get("prime"):
+                probes["primed_session"] = probes.get("primed_session", 0) + 1
+                _prime(case, paths)
             sim = Sim(
                 var.get("sched_seed", 0),
                 choices=case.get("schedule") if len(case["variants"]) == 1 else None,
@@ -337,6 +373,7 @@ def run_case(case: dict) -> dict:
                 dict(digest=sim.digest(), nontrivial=sim.multi_choice_steps > 0, steps=sim.steps)
             )
             leaked = sim.cleanup()
+            procstate.uninstall()
             if leaked:
                 probes["leaked_threads"] = probes.get("leaked_threads", 0) + leaked
             shutil.rmtree(simroot, ignore_errors=True)
